@@ -6,6 +6,17 @@ validator (`Core.lean`).  TRUSTED (not proved against `Interp.lean`); kept small
 
 * an `Alloc` listed in `cells` becomes a private cell — after checking that its value is used
   ONLY as the address operand of `Load`/`Store` (or by a `DebugRef`), i.e. never escapes;
+* a PARTIALLY escaping `Alloc` x of the NAIVE function that lift.go split (`SplitSpec`; the lifted
+  function needs no special treatment, its "split alloc" is an ordinary escaping Alloc): while the
+  address of x has not been used except as the address of Loads/Stores, those accesses go to a
+  private *shadow cell*; the real object is allocated where the Alloc is (an opaque operation, like
+  in the lifted function).  At the *sync points* given by the untrusted certificate the content of
+  the shadow cell is stored into the real object (`load t c; store x t` — exactly what lift.go's
+  inserted "split alloc" stores do in the lifted function).  A typestate analysis
+  (`tsEntries`/`tsStep`) checks on every path: the first use of the address other than a shadow
+  access happens when the shadow cell and the object are in sync, and from then on every access
+  goes to the object.  Redirecting the accesses of an object whose address nobody else has to a
+  shadow cell that is synced before the address is used is unobservable;
 * `DebugRef` has no meaning and is dropped;
 * the `ssa:deferstack()` preamble of a function whose defer stack does not escape
   (`d = ssa:deferstack(); *c = d` with `c` private and every `*c` used only as the DeferStack
@@ -150,22 +161,143 @@ def dsInfo (f : Fn) : DsInfo :=
     | _ => { escapes := true }
   | _ => { escapes := true }
 
+/-! ### partially escaping Allocs (split by lift.go) -/
+
+inductive TS where
+  | dead                   -- before the Alloc
+  | shadow (dirty : Bool)  -- accesses go to the shadow cell; dirty = stored to since the last sync
+  | pub                    -- the address is in use: every access goes to the object
+  | conflict               -- paths disagree: no use allowed before the next Alloc
+  deriving BEq, Repr, Inhabited
+
+structure SplitSpec where
+  /-- the partially escaping Alloc of the naive function -/
+  addr : Nat
+  /-- sync points: (id of the instruction BEFORE which the sync happens, fresh register for the loaded
+  shadow content, fresh register standing for the Store instruction) -/
+  pubs : List (Nat × Nat × Nat)
+  /-- ids of the Loads/Stores of the address that access the object (all others access the shadow cell) -/
+  world : List Nat
+  deriving Inhabited
+
+def isAllocOf (ins : Instr) (v : Nat) : Bool :=
+  ins.id == v && (match ins.kind with | .alloc _ => true | _ => false)
+
+def SplitSpec.syncsAt (sp : SplitSpec) (id : Nat) : List (Nat × Nat × Nat) := sp.pubs.filter fun x => x.1 == id
+
+/-- typestate after `ins`; `none` = the address is used in a state that does not allow it -/
+def tsStep (sp : SplitSpec) (ins : Instr) (s : TS) : Option TS :=
+  if isDebugRef ins.kind then some s else
+  -- sync points before the instruction
+  let s1 : Option TS :=
+    if (sp.syncsAt ins.id).isEmpty then some s else
+    match s with
+    | .shadow _ => some (.shadow false)
+    | _ => none
+  match s1 with
+  | none => none
+  | some s1 =>
+    if isAllocOf ins sp.addr then some (.shadow false) else
+    ins.ops.zipIdx.foldl (fun (acc : Option TS) (o, i) =>
+      match acc with
+      | none => none
+      | some st =>
+        if o != some sp.addr then some st else
+        let isAccess := (ins.kind == .load && i == 0) || (ins.kind == .store && i == 0)
+        if isAccess && !sp.world.contains ins.id then
+          -- shadow access
+          match st with
+          | .shadow d => some (.shadow (d || ins.kind == .store))
+          | _ => none
+        else
+          -- the address itself is used (or the object accessed)
+          match st with
+          | .shadow false => some .pub
+          | .pub => some .pub
+          | _ => none) (some s1)
+
+def tsJoin (a : Option TS) (b : TS) : TS :=
+  match a with
+  | none => b
+  | some a =>
+    if a == b then a else
+    match a, b with
+    | .shadow _, .shadow _ => .shadow true
+    | .shadow false, .pub => .pub
+    | .pub, .shadow false => .pub
+    | _, _ => .conflict
+
+/-- typestate at the entry of every block (forward data flow to a fixpoint; states only move
+downwards, so 4n+4 rounds suffice) -/
+def tsEntries (f : Fn) (sp : SplitSpec) : Array TS := Id.run do
+  let n := f.blocks.size
+  let mut ent : Array (Option TS) := Array.replicate n none
+  if n > 0 then ent := ent.set! 0 (some .dead)
+  match f.recover with
+  | some rb => ent := ent.set! rb (some .conflict)
+  | none => pure ()
+  for _ in [0:4 * n + 4] do
+    for b in [0:n] do
+      match ent[b]!, f.blocks[b]? with
+      | some s0, some blk =>
+        let mut s := s0
+        for ins in blk.instrs do
+          s := (tsStep sp ins s).getD .conflict
+        for succ in blk.succs do
+          if succ < n && some succ != f.recover && succ != 0 then
+            ent := ent.set! succ (some (tsJoin ent[succ]! s))
+      | _, _ => pure ()
+  return ent.map fun o => o.getD .conflict
+
 structure BAcc where
   phis : List Phi := []
   body : List Ins := []
   term : Option Term := none
   inBody : Bool := false
+  /-- current typestate of every split spec -/
+  ts : List TS := []
 
-def absInstr (p : Prog) (f : Fn) (cells : List Nat) (ds : DsInfo) (dropRunDefers : Bool)
-    (b : Block) (acc : BAcc) (ins : Instr) : Except String BAcc := do
-  if acc.term.isSome then throw "instruction after the terminator"
-  if isDebugRef ins.kind then return acc
-  if ds.dropped.contains ins.id then return { acc with inBody := true }
+/-- key of the Store operation `*x = v` for the Alloc `addr` (the same key `opKey` gives a real Store) -/
+def syncStoreKey (p : Prog) (f : Fn) (addr : Nat) : Except String String :=
+  match f.vals[addr]? with
+  | some (_, t) => match p.under t with
+    | .ptr e => pure (kindKey p .store ++ "|-|" ++ p.tkey t ++ "," ++ p.tkey e)
+    | _ => throw "split alloc: not a pointer type"
+  | none => throw "split alloc: bad value id"
+
+def absInstr (p : Prog) (f : Fn) (cells : List Nat) (splits : List SplitSpec) (ds : DsInfo) (dropRunDefers : Bool)
+    (b : Block) (acc0 : BAcc) (ins : Instr) : Except String BAcc := do
+  if acc0.term.isSome then throw "instruction after the terminator"
+  if isDebugRef ins.kind then return acc0
+  if ds.dropped.contains ins.id then return { acc0 with inBody := true }
   let opnd (o : Option Nat) : Except String Opnd :=
     match o with
     | some v => if ds.own.contains v then pure (.const (.lit "deferstack:own")) else opndOf p f o
     | none => opndOf p f o
   let opnds (os : List (Option Nat)) : Except String (List Opnd) := os.mapM opnd
+  -- ---- partially escaping Allocs: sync points, shadow cell
+  let mut acc := acc0
+  let mut newTs : List TS := []
+  let mut shadowNow : List Nat := []
+  -- sync points before this instruction, in the order of their temporaries
+  let syncs := (splits.flatMap fun sp => (sp.syncsAt ins.id).map fun (_, t, r) => (t, r, sp.addr)).toArray.qsort (fun a b => a.1 < b.1)
+  for (t, r, a) in syncs do
+    acc := { acc with body := acc.body ++ [.load t a, .op r (← syncStoreKey p f a) [.reg a, .reg t]], inBody := true }
+  for (sp, k) in splits.zipIdx do
+    let s := acc.ts.getD k .conflict
+    match tsStep sp ins s with
+    | none => throw s!"split alloc {sp.addr}: instruction {ins.id} uses it in a state that does not allow it"
+    | some s' =>
+      newTs := newTs ++ [s']
+      if isAllocOf ins sp.addr then
+        -- the shadow cell next to the real object (the Alloc itself is emitted below as an operation)
+        match ins.ty.map p.under with
+        | some (.ptr e) => acc := { acc with body := acc.body ++ [.alloc ins.id (p.tkey e)], inBody := true }
+        | _ => throw "alloc: not a pointer type"
+      else if ((ins.kind == .load || ins.kind == .store) && ins.ops.getD 0 none == some sp.addr && !sp.world.contains ins.id) then
+        shadowNow := sp.addr :: shadowNow
+  acc := { acc with ts := newTs }
+  let cells := cells ++ shadowNow
   let isCell (o : Option Nat) : Bool := match o with
     | some v => cells.contains v
     | none => false
@@ -181,6 +313,11 @@ def absInstr (p : Prog) (f : Fn) (cells : List Nat) (ds : DsInfo) (dropRunDefers
       match ins.ty.map p.under with
       | some (.ptr e) => pure (body (.alloc ins.id (p.tkey e)))
       | _ => throw "alloc: not a pointer type"
+    else if splits.any (fun sp => sp.addr == ins.id) then
+      -- lift.go's split alloc is always a heap Alloc, also when the Alloc it replaces is a local whose
+      -- address is only used within the function (the difference — the same object re-zeroed or a
+      -- fresh one when executed again — needs a live address of the earlier object to be observed)
+      pure (body (.op ins.id (opKey p f { ins with kind := .alloc true }) (← opnds ins.ops)))
     else pure (body (.op ins.id (opKey p f ins) (← opnds ins.ops)))
   | .load =>
     if isCell (ins.ops.getD 0 none) then
@@ -213,32 +350,60 @@ def absInstr (p : Prog) (f : Fn) (cells : List Nat) (ds : DsInfo) (dropRunDefers
   | .panic => pure (fin (.panic "panic" (← opnds ins.ops)))
   | _ => pure (body (.op ins.id (opKey p f ins) (← opnds ins.ops)))
 
-def absBlock (p : Prog) (f : Fn) (cells : List Nat) (ds : DsInfo) (drd : Bool) (b : Block) : Except String Core.Block := do
-  let mut acc : BAcc := {}
+def absBlock (p : Prog) (f : Fn) (cells : List Nat) (splits : List SplitSpec) (ents : List (Array TS))
+    (ds : DsInfo) (drd : Bool) (bi : Nat) (b : Block) : Except String Core.Block := do
+  let mut acc : BAcc := { ts := ents.map fun e => e.getD bi .conflict }
   for ins in b.instrs do
-    acc ← absInstr p f cells ds drd b acc ins
+    acc ← absInstr p f cells splits ds drd b acc ins
   match acc.term with
   | some t => pure { preds := b.preds, phis := acc.phis, body := acc.body, term := t }
   | none => throw "block without terminator"
 
-/-- abstraction of function `f` with the given Allocs as private cells -/
-def toCore (p : Prog) (f : Fn) (cells : List Nat) : Except String Core.Fn := do
+/-- abstraction of function `f` with the given Allocs as private cells and the given split Allocs -/
+def toCore (p : Prog) (f : Fn) (cells : List Nat) (splits : List SplitSpec := []) : Except String Core.Fn := do
   if f.external then throw "external function"
   for c in cells do
-    let isAlloc := (allInstrs f).any fun ins => ins.id == c && (match ins.kind with | .alloc _ => true | _ => false)
+    let isAlloc := (allInstrs f).any fun ins => isAllocOf ins c
     if !isAlloc then throw s!"cell {c} is not an Alloc"
     if !privateAddr f c then throw s!"cell {c} escapes"
+  for sp in splits do
+    if !((allInstrs f).any fun ins => isAllocOf ins sp.addr) then throw s!"split alloc {sp.addr} is not an Alloc"
+    if cells.contains sp.addr then throw s!"split alloc {sp.addr} is also declared private"
+  if (splits.map (·.addr)).eraseDups.length != splits.length then throw "duplicate split alloc"
+  -- the temporaries of the sync points are fresh and pairwise distinct
+  let temps := splits.flatMap fun sp => sp.pubs.flatMap fun (_, t, r) => [t, r]
+  if temps.any (· < f.vals.size) then throw "sync point temporary is not fresh"
+  if temps.eraseDups.length != temps.length then throw "sync point temporaries are not distinct"
   let ds := dsInfo f
   -- a dropped deferstack cell must not also be declared a private cell
   let cells := cells.filter fun c => !ds.dropped.contains c
+  if splits.any fun sp => ds.dropped.contains sp.addr then throw "split alloc is the defer stack cell"
   let hasDefer := (allInstrs f).any fun ins => isDefer ins.kind
   let drd := !hasDefer && !ds.escapes
+  let ents := splits.map (tsEntries f)
   let mut blocks : List Core.Block := []
-  for b in f.blocks do
-    blocks := blocks ++ [← absBlock p f cells ds drd b]
+  for (b, bi) in f.blocks.toList.zipIdx do
+    blocks := blocks ++ [← absBlock p f cells splits ents ds drd bi b]
   pure { nparams := f.nparams + f.nfree, recover := f.recover, blocks := blocks }
 
 /-! ### diagnostics (not trusted, not proved): why does `liftCheck` say no -/
+
+/-- where `walk` stops (diagnostics only) -/
+def walkWhy (ρ : Rho) : Nat → KMap → List Ins → List Ins → String
+  | 0, _, _, _ => "?"
+  | _, _, [], [] => "ok"
+  | _, _, [], l :: _ => s!"lifted block has an extra instruction {repr l}"
+  | n+1, M, .alloc c ty :: ns, ls => walkWhy ρ n (M.set (.cell c) (some (.const (.zero ty)))) ns ls
+  | n+1, M, .store c o :: ns, ls => walkWhy ρ n (M.set (.cell c) (tr ρ M o)) ns ls
+  | n+1, M, .load r c :: ns, ls =>
+    if ρ.get r = none then walkWhy ρ n (M.set (.lreg r) (M.get (.cell c))) ns ls else s!"load register {r} is related by rho"
+  | n+1, M, .op r f args :: ns, .op r' f' args' :: ls =>
+    if ρ.get r != some r' then s!"naive op {r} ({f}) is not related to lifted op {r'} ({f'})"
+    else if f != f' then s!"operations differ: naive {r} {f} / lifted {r'} {f'}"
+    else if trs ρ M args != some args' then s!"operands of {r}/{r'} ({f}): naive {repr args} translate to {repr (args.map (tr ρ M))}, lifted has {repr args'}"
+    else walkWhy ρ n (M.kill r') ns ls
+  | _, _, .op r f _ :: _, l :: _ => s!"naive op {r} ({f}) faces {repr l}"
+  | _, _, .op r f _ :: _, [] => s!"naive op {r} ({f}) has no counterpart"
 
 def liftWhy (N L : Core.Fn) (ρ : Rho) (cert : List KMap) : String := Id.run do
   if N.nparams != L.nparams then return "nparams differ"
@@ -252,12 +417,16 @@ def liftWhy (N L : Core.Fn) (ρ : Rho) (cert : List KMap) : String := Id.run do
       if !wfMap ρ (certAt cert b) then return s!"block {b}: certificate names a rho-related register as load register"
       if !phisOk ρ NB LB then return s!"block {b}: a lifted phi is related to a naive non-phi register"
       match walk ρ (certAt cert b) NB.body LB.body with
-      | none => return s!"block {b}: bodies do not correspond under the certificate"
+      | none => return s!"block {b}: bodies do not correspond under the certificate: " ++ walkWhy ρ (NB.body.length + LB.body.length + 1) (certAt cert b) NB.body LB.body
       | some Mo => if !termOk ρ Mo NB.term LB.term then return s!"block {b}: terminators do not correspond"
       for k in [0:NB.preds.length] do
         match mout ρ cert N L (NB.preds.getD k 0) with
         | some Mo => if !edgeOk ρ Mo k NB LB (certAt cert b) then return s!"block {b}: edge {k} from block {NB.preds.getD k 0} does not justify the entry map / phi operands"
-        | none => return s!"block {b}: predecessor {NB.preds.getD k 0} has no exit map"
+        | none =>
+          let pb := NB.preds.getD k 0
+          match N.blocks[pb]?, L.blocks[pb]? with
+          | some PN, some PL => return s!"block {pb}: bodies do not correspond under the certificate: " ++ walkWhy ρ (PN.body.length + PL.body.length + 1) (certAt cert pb) PN.body PL.body
+          | _, _ => return s!"block {b}: predecessor {pb} missing"
     | _, _ => return s!"block {b} missing"
   if !entryOk cert N L 0 then return "entry block has phis or a non-empty entry map"
   match N.recover with
